@@ -10,8 +10,8 @@ def is_known(key):
     return any(key == k or key.startswith(k.split(':')[0]) and k.startswith(key.split(':')[0]) and (':' not in k or k in key or key in k) for k in KNOWN)
 
 only = sys.argv[1:]
-QUICK = {"C01": 1000, "C02": 800, "C03": 1000, "C04": 1200, "C05": 700, "C06": 800, "C07": 800, "C08": 640, "C09": 900,
-         "C10": 1200, "C11": 800, "C12": 800, "C15": 500, "C16": 1000, "C17": 936, "C18": 800}
+QUICK = {"C01": 2000, "C02": 1600, "C03": 2000, "C04": 1200, "C05": 700, "C06": 800, "C07": 800, "C08": 640, "C09": 900,
+         "C10": 1600, "C11": 2400, "C12": 1600, "C15": 1000, "C16": 1600, "C17": 936, "C18": 2400}
 
 def try_one(d, lane):
     meta = json.load(open('/verif/seeded/%s/meta.json' % d))
@@ -59,6 +59,15 @@ def lane_worker(lane):
 ts = [threading.Thread(target=lane_worker, args=(l,)) for l in ('', '2')]
 for t in ts: t.start()
 for t in ts: t.join()
+# a partial re-run (ids given) keeps the other rows of the existing table
+if only and os.path.exists('/verif/SENSITIVITY.md'):
+    have = {r[0] for r in rows}
+    for line in open('/verif/SENSITIVITY.md'):
+        m = re.match(r'^\| (C\d\d\w*) \| (C\d\d) \| (C\d\d) \| (-?\d+) \| (.*) \|$', line.strip())
+        if m and m.group(1) not in have:
+            res = m.group(5)
+            own = [] if 'missed' in res else [x for x in res.replace('caught: ', '').split('; ')]
+            rows.append((m.group(1), m.group(2), m.group(3), int(m.group(4)), own))
 rows.sort()
 
 with open('/verif/SENSITIVITY.md', 'w') as f:
